@@ -348,8 +348,8 @@ Lemma lite_first_phase_step M m s st rops s' st' rops' : lite M s ->
   first_phase_step m s st rops = Ok (Some (s', st', rops')) -> lite M s'.
 Proof.
   intros L H. apply first_phase_step_inv in H.
-  destruct H as (end_row & chosen & r & s1 & s2 & st1 & s3 & st2 & tv & pco & r1 & wu & ec & st3 & s4 & s5 &
-    Eer & Esel & Hch & Esw & EX & Est & Esub & Etv & Epco & Er1 & Ewu & Eec & Ers & Eel & Ehd & Evf & ->).
+  destruct H as [(end_row & chosen & r & s1 & s2 & st1 & s3 & st2 & tv & pco & r1 & wu & ec & st3 & s4 & s5 &
+    Eer & Esel & Hch & Esw & EX & Est & Esub & Etv & Epco & Er1 & Ewu & Eec & Ers & Eel & Ehd & ->) Evf].
   pose proof (lite_ps_swap_rows _ _ _ _ _ _ L Esw) as L1.
   pose proof (lite_onX _ _ _ _ _ L1 EX) as L2.
   pose proof (lite_swap_substep _ _ _ _ _ _ _ L2 Esub) as L3.
